@@ -131,7 +131,7 @@ func checkC10(c *Ctx) {
 	c.rule("C10.R1", "no blocking operation in any module function reachable synchronously from Next: receives only in selects with default, sends only to channels made in the same function with sufficient capacity, no sleep/wait", 3)
 	c.rule("C10.R2", "the command bridge invokes the host handler from a goroutine unless the invocation is entailed by `the handler returns a channel`", 1)
 	c.rule("C10.R3", "completion is consumed exactly once: in Next the receive arm clears the pending channel before any return and the default arm returns the waiting error with no effect; in the command executor the dispatched channel is received from or stored as pending, never both, never neither", 2)
-	c.rule("C10.R4", "exactly once: one dispatch per command statement; per bridge call the handler is invoked at most once and, if not at all, an error is reported; each arm of the handler goroutine reports completion exactly once and the arms cover every signature the gate accepts", 4)
+	c.rule("C10.R4", "exactly once: one dispatch per command statement; per bridge call the handler is invoked at most once and, if not at all, an error is reported; each arm of the handler goroutine reports completion exactly once and the arms cover every signature the gate accepts", 2)
 	c.rule("C10.R5", "goroutine literals capture only channels and variables never assigned after the go statement, and write nothing but channel sends", 2)
 	c.rule("C10.R6", "built-in wait: the sleep duration is the number argument × one second with no float→integer conversion before scaling; completion is sent only after the sleep", 2)
 	if !m.ok(c, "C10") {
